@@ -11,6 +11,7 @@ import (
 	"net/http"
 	"strings"
 	"sync"
+	"sync/atomic"
 	"testing"
 	"time"
 
@@ -33,19 +34,20 @@ type c08eOp struct {
 }
 
 type c08eCase struct {
-	Transport      string   `json:"transport"`
-	WindowMs       int      `json:"window_ms"`
-	CleanerMs      int      `json:"cleaner_ms"` // period of the log cleaner (0 = the production default of one minute)
-	Rooms          []int    `json:"rooms"`  // rooms joined on the first connection
-	Online         []c08eOp `json:"online"` // while connected
-	How            string   `json:"how"`    // cut | blackhole | server-close-conn | client-disconnect | server-disconnect
-	Away           []c08eOp `json:"away"`   // while away (after the server has noticed)
-	EarlyAway      int      `json:"early_away"` // broadcasts issued right after the loss, before the server can have noticed it
-	Offset         string   `json:"offset"` // last | older | unknown | empty
-	Pid            string   `json:"pid"`    // own | unknown | none
-	UseMiddlewares bool     `json:"use_middlewares"`
-	After          []c08eOp `json:"after"`
-	Twice          bool     `json:"twice"` // lose the connection and recover a second time
+	Transport           string   `json:"transport"`
+	WindowMs            int      `json:"window_ms"`
+	CleanerMs           int      `json:"cleaner_ms"` // period of the log cleaner (0 = the production default of one minute)
+	Rooms               []int    `json:"rooms"`      // rooms joined on the first connection
+	Online              []c08eOp `json:"online"`     // while connected
+	How                 string   `json:"how"`        // cut | blackhole | server-close-conn | client-disconnect | server-disconnect
+	Away                []c08eOp `json:"away"`       // while away (after the server has noticed)
+	EarlyAway           int      `json:"early_away"` // broadcasts issued right after the loss, before the server can have noticed it
+	Offset              string   `json:"offset"`     // last | older | unknown | empty
+	Pid                 string   `json:"pid"`        // own | unknown | none
+	UseMiddlewares      bool     `json:"use_middlewares"`
+	After               []c08eOp `json:"after"`
+	Twice               bool     `json:"twice"`                 // lose the connection and recover a second time
+	SlowDisconnectingMs int      `json:"slow_disconnecting_ms"` // the application's disconnecting handler takes this long; the client comes back while it still runs
 }
 
 func (c c08eCase) class() string {
@@ -136,6 +138,7 @@ func evalC08e(c c08eCase) (f *Failure, nontrivial bool) {
 	window := time.Duration(c.WindowMs) * time.Millisecond
 	msg := runRig(rigOpts{Recovery: true, RecoveryWindow: window, CleanerPeriod: time.Duration(c.CleanerMs) * time.Millisecond, RecoveryUseMiddlewares: c.UseMiddlewares, PingInterval: time.Second, PingTimeout: time.Second}, func(r *rig) {
 		var mu sync.Mutex
+		var slowArmed atomic.Bool
 		var conns []sio.ServerSocket // server sockets in order of their connection handlers
 		mwRuns := 0
 		var disconnects []string
@@ -145,8 +148,21 @@ func evalC08e(c c08eCase) (f *Failure, nontrivial bool) {
 			mu.Lock()
 			conns = append(conns, s)
 			mu.Unlock()
-			s.OnDisconnect(func(reason sio.Reason) { mu.Lock(); disconnects = append(disconnects, string(reason)); mu.Unlock() })
+			// "the server has noticed the loss" = its disconnecting handler is entered (the disconnect handler runs only after the disconnecting handlers returned)
+			s.OnDisconnecting(func(reason sio.Reason) {
+				mu.Lock()
+				disconnects = append(disconnects, string(reason))
+				mu.Unlock()
+				if c.SlowDisconnectingMs > 0 && slowArmed.CompareAndSwap(true, false) {
+					time.Sleep(time.Duration(c.SlowDisconnectingMs) * time.Millisecond) // only the socket that loses its connection, not the ones closed by the teardown
+				}
+			})
 		})
+		if c.SlowDisconnectingMs > 0 {
+			// whatever the verdict: a slow disconnecting handler is allowed to return before the teardown closes its socket a second time
+			// (the library holds the socket's close-once guard while it waits for the handler; virtual time cannot pass while somebody waits for it)
+			defer func() { settle(time.Duration(c.SlowDisconnectingMs)*time.Millisecond + 11*time.Second) }()
+		}
 		var trs []*http.Transport
 		defer func() {
 			for _, tr := range trs {
@@ -309,6 +325,7 @@ func evalC08e(c c08eCase) (f *Failure, nontrivial bool) {
 			}
 			// ---- lose the connection
 			recoverable := true
+			slowArmed.Store(true)
 			lossAt := time.Now()
 			switch c.How {
 			case "cut":
@@ -492,7 +509,7 @@ func evalC08e(c c08eCase) (f *Failure, nontrivial bool) {
 					res = fail("clean-fallback", fmt.Sprintf("a fresh session starts in its own room only; rooms %v", rooms))
 					return
 				}
-				if old, ok := nsp.Adapter().SocketRooms(sio.SocketID(sid)); ok && old.Cardinality() > 0 {
+				if old, ok := nsp.Adapter().SocketRooms(sio.SocketID(sid)); ok && old.Cardinality() > 0 && c.SlowDisconnectingMs == 0 { // (a socket keeps its rooms while its disconnecting handlers run)
 					res = fail("clean-fallback", fmt.Sprintf("the old session id still has rooms %v", old))
 					return
 				}
@@ -522,6 +539,41 @@ func evalC08e(c c08eCase) (f *Failure, nontrivial bool) {
 				}
 			}
 			nontrivial = nontrivial || (recovered && len(evs2) >= 2)
+			if c.SlowDisconnectingMs > 0 && res == nil {
+				// the old socket's disconnecting handler returns only now: what it cleans up must be its own, not the recovered session's
+				settle(time.Duration(c.SlowDisconnectingMs)*time.Millisecond + 11*time.Second)
+				if recovered {
+					rooms, _ := nsp.Adapter().SocketRooms(sio.SocketID(sid))
+					for rm := range member {
+						if rooms == nil || !rooms.Contains(rm) {
+							res = fail("rooms-restored", fmt.Sprintf("the recovered session lost room %q once the previous socket's disconnecting handler (%d ms) had returned (rooms %v, wanted %v)", rm, c.SlowDisconnectingMs, rooms, member))
+							return
+						}
+					}
+					listed := false
+					for _, so := range nsp.Sockets() {
+						listed = listed || so.ID() == sio.SocketID(sid)
+					}
+					if !listed {
+						res = fail("rooms-restored", fmt.Sprintf("the recovered session is no longer listed in its namespace once the previous socket's disconnecting handler (%d ms) had returned", c.SlowDisconnectingMs))
+						return
+					}
+				}
+				expectLive = map[string]bool{}
+				run([]c08eOp{{Op: "bc-nsp"}, {Op: "direct"}}, fmt.Sprintf("late%d", round))
+				settle(500 * time.Millisecond)
+				evs4, _, _ := received(peer.snapshot())
+				cnt := map[string]int{}
+				for _, g := range evs4 {
+					cnt[g.tok]++
+				}
+				for tok := range expectLive {
+					if cnt[tok] != 1 {
+						res = fail("live-delivery", fmt.Sprintf("round %d, after the previous socket's slow disconnecting handler returned: %q was received %d times", round, tok, cnt[tok]))
+						return
+					}
+				}
+			}
 		}
 		peer.cli.Close()
 	})
@@ -548,11 +600,16 @@ func genC08eOps(t *rapid.T, label string, max int, membership bool) []c08eOp {
 
 func genC08eCase(t *rapid.T) c08eCase {
 	c := c08eCase{Transport: rapid.SampledFrom([]string{"polling", "websocket"}).Draw(t, "transport"), WindowMs: rapid.SampledFrom([]int{10000, 120000}).Draw(t, "window"),
-		How: rapid.SampledFrom([]string{"cut", "cut", "blackhole", "server-close-conn", "client-disconnect", "server-disconnect"}).Draw(t, "how"),
+		How:    rapid.SampledFrom([]string{"cut", "cut", "blackhole", "server-close-conn", "client-disconnect", "server-disconnect"}).Draw(t, "how"),
 		Offset: rapid.SampledFrom([]string{"last", "last", "last", "older", "unknown", "empty"}).Draw(t, "offset"), Pid: rapid.SampledFrom([]string{"own", "own", "own", "unknown", "none"}).Draw(t, "pid"),
-		UseMiddlewares: rapid.Bool().Draw(t, "useMiddlewares"), CleanerMs: rapid.SampledFrom([]int{0, 1000, 2500}).Draw(t, "cleaner"), EarlyAway: rapid.IntRange(0, 2).Draw(t, "early"), Twice: rapid.IntRange(0, 3).Draw(t, "twice") == 0}
+		SlowDisconnectingMs: rapid.SampledFrom([]int{0, 0, 0, 3000, 9000}).Draw(t, "slowDisconnecting"), UseMiddlewares: rapid.Bool().Draw(t, "useMiddlewares"), CleanerMs: rapid.SampledFrom([]int{0, 1000, 2500}).Draw(t, "cleaner"), EarlyAway: rapid.IntRange(0, 2).Draw(t, "early"), Twice: rapid.IntRange(0, 3).Draw(t, "twice") == 0}
 	for i, n := 0, rapid.IntRange(0, 3).Draw(t, "rooms"); i < n; i++ {
 		c.Rooms = append(c.Rooms, rapid.IntRange(0, 2).Draw(t, "r"))
+	}
+	if c.How != "cut" && c.How != "blackhole" {
+		// the other ways to end it reach the socket's close twice (the server's own call, then the connection closing under it): the second caller waits
+		// for the close-once guard that the first one holds across the slow handler, and virtual time cannot pass while it waits (DESIGN.md §2.2)
+		c.SlowDisconnectingMs = 0
 	}
 	c.Online = append([]c08eOp{{Op: "bc-nsp"}}, genC08eOps(t, "online", 6, true)...) // at least one broadcast received: the peer has an offset
 	c.Away = genC08eOps(t, "away", 8, false)
@@ -573,7 +630,7 @@ func TestC08_RecoveryE2E(t *testing.T) {
 	ev := NewEv(t, "C08", c08eCheck, "rapid on the virtual-time rig, real server with connection state recovery (window 10 s / 2 min, log cleaner every 1 s / 2.5 s / 1 min, UseMiddlewares on/off) against a hand-written Socket.IO client that tracks the offset "+
 		"(last argument of every broadcast event) and reconnects with {pid, offset}: 0..3 rooms, 1..7 operations while connected (namespace / room / except broadcasts, text and binary, direct emits, join/leave "+
 		"each followed by a namespace broadcast), loss by {cut, black-hole (ping timeout), forced close, client DISCONNECT, server Disconnect}, 0..2 broadcasts before the server can notice, 0..8 operations while away, "+
-		"optionally staying away for about / beyond the window, reconnect with offset {last, older, unknown, empty} and pid {own, unknown, none}, 0..4 operations afterwards, optionally a second loss and recovery; "+
+		"optionally staying away for about / beyond the window, reconnect with offset {last, older, unknown, empty} and pid {own, unknown, none}, 0..4 operations afterwards, optionally a second loss and recovery, optionally a disconnecting handler that takes 3 s / 9 s so that the client is back while it still runs; "+
 		"oracle against a reference log: recovered iff eligible (recoverable reason, own pid, known offset, within the window; either outcome at the window's edge); recovered => same sid and pid, Recovered(), "+
 		"rooms == rooms at the loss, replayed tokens == logged broadcasts after the offset addressed to those rooms, in order, each once, middleware runs iff UseMiddlewares; otherwise => fresh sid and pid, nothing "+
 		"replayed, middleware once, own room only, old id gone; afterwards live events arrive exactly once; non-trivial = a recovery replaying >= 2 packets, or a refused recovery with traffic while away")
